@@ -28,7 +28,7 @@ def make_sessions(seed, nsess, ncalls):
             save = rng.random() < 0.5
             calls.append({'cls': cls, 'upto': upto, 'var': rng.randrange(3), 'glob': rng.choice([None, None, None, 'run', 'plot']), 'show': rng.random() < 0.12, 'show_ceilos': rng.random() < 0.5,
                           'ref': rng.choice([None, None, 'FEW010 BKN030', '']), 'origin': rng.choice([None, 'manual obs']),
-                          'save': save, 'stemsuffix': rng.choice(['', '', '_a', '.v1.2', '_2024.01.31', '.x']), 'fmts': rng.choice([None, 'png', ['png'], ['png', 'pdf'], ['pdf']]) if save else None})
+                          'save': save, 'stemsuffix': rng.choice(['', '', '_a', '.v1.2', '_2024.01.31', '.x']), 'fmts': rng.choice([None, 'png', ['png'], ['png', 'pdf'], ['pdf'], []]) if save else None})
         out.append({'name': f'plots:{s}', 'seed': seed * 1000 + s, 'calls': calls})
     return out
 
